@@ -406,6 +406,36 @@ def venn_late_check(case):
     return Res(v, o=(nsort, base > 0), tr=2)
 
 
+# ------------------------------------------------------------------ many spikes of one sorter in one bin (counts beyond 255 / 65535 per cell)
+def venn_dense_cases(tier, seed):
+    counts = (255, 256, 257, 300, 700) if tier == "quick" else (255, 256, 257, 300, 700, 65535, 65537, 70000)
+    return [(nsort, n) for nsort in (2, 3) for n in counts]
+
+
+def venn_dense_check(case):
+    """coarse bins or a bursting unit: one (time, channel) cell holds n spikes of one sorter and a handful of the others - every spike still in exactly one region"""
+    nsort, n = case
+    binsz = 3000
+    samples = [np.sort(np.r_[np.full(n, 5 * binsz + 7), np.arange(4) * binsz * 3 + 11]).astype(np.int64)]
+    channels = [np.r_[np.full(n, 2), np.arange(4) % 8].astype(np.int64)[np.argsort(np.r_[np.full(n, 5 * binsz + 7), np.arange(4) * binsz * 3 + 11], kind="stable")]]
+    for k in range(1, nsort):
+        ss = np.sort(np.r_[np.full(3 + k, 5 * binsz + 9), np.arange(5) * binsz * 2 + 13 + k]).astype(np.int64)
+        samples.append(ss)
+        channels.append(np.where(ss // binsz == 5, 2, (ss // binsz) % 8).astype(np.int64))
+    fn = spiketrains.spikes_venn2 if nsort == 2 else spiketrains.spikes_venn3
+    v = []
+    try:
+        with contextlib.redirect_stdout(io.StringIO()), contextlib.redirect_stderr(io.StringIO()):
+            res = fn(tuple(samples), tuple(channels), samples_binsize=binsz, channels_binsize=CHB, fs=30000, num_channels=8, chunk_size=binsz * 64)
+    except Exception as e:
+        return Res([("venn:dense:exc", "%d sorters, %d spikes of sorter 0 in one bin: %s: %s" % (nsort, n, type(e).__name__, e))])
+    for k in range(nsort):
+        tot = sum(int(c) for name, c in res.items() if name[k] == "1")
+        if tot != len(samples[k]):
+            v.append(("venn:conservation:dense-bin", "sorter %d has %d spikes (%d of sorter 0 in one time x channel bin), the regions containing it sum to %d" % (k, len(samples[k]), n, tot)))
+    return Res(v, o=(nsort, n > 255, n > 65535), tr=1)
+
+
 # ------------------------------------------------------------------ stack
 def stack_cases(tier, seed):
     L = 5 if tier == "quick" else 6
@@ -459,6 +489,8 @@ CHECK = {
         Clause("nan-fill", "smooth_interpolate_savgol fills every NaN pattern", cases=nan_cases, check=nan_check),
         Clause("venn", "spike coincidence counting conserves spikes for every small train and chunking", cases=venn_cases, check=venn_check),
         Clause("venn-late", "spike trains with sample indices around and beyond 2**31 / 2**32 (int64, uint64, float64): every spike in exactly one region", cases=venn_late_cases, check=venn_late_check, setup=_setup),
+        Clause("venn-dense", "255 / 256 / 257 / 300 / 700 (thorough: up to 70000) spikes of one sorter in a single time x channel bin: every spike in exactly one region",
+               cases=venn_dense_cases, check=venn_dense_check),
         Clause("stack", "stack by label for every label vector", cases=stack_cases, check=stack_check, setup=_setup),
         _layouts.make_clause(__import__("checks._layout_specs", fromlist=["x"]).c20()),
     ],
